@@ -70,6 +70,13 @@ PROGRAMS = {
         S("mv", "s2", "a0", lab="g"), S("sw", "t0", ("m", 0, "s2")), S("lw", "t1", ("m", 4, "s2")), S("sw", "s3", ("m", 8, "t2")),
         S("li", "s3", 1), S("lw", "s3", ("m", 8, "t2")), S("add", "a0", "t1", "s3"), S("ret"),
     ],
+    "moves": [                    # register copies that carry a tracked value (saved register parked in a temporary, frame pointer)
+        S("li", "a0", 1, lab="start"), S("call", "@f"), S("call", "@g"), S("li", "a7", 1), S("ecall"), S("li", "a7", 10), S("ecall"),
+        S("mv", "t0", "s0", lab="f"), S("li", "s0", 5), S("add", "a0", "a0", "s0"), S("mv", "s0", "t0"), S("ret"),
+        S("addi", "sp", "sp", -16, lab="g"), S("sw", "s1", ("m", 0, "sp")), S("mv", "s1", "sp"), S("addi", "sp", "sp", -32),
+        S("sw", "a0", ("m", 4, "sp")), S("lw", "a0", ("m", 4, "sp")), S("mv", "sp", "s1"), S("lw", "s1", ("m", 0, "sp")),
+        S("addi", "sp", "sp", 16), S("ret"),
+    ],
     "two-functions": [
         S("li", "a0", 3, lab="start"), S("jal", "ra", "@g"), S("mv", "s2", "a0"), S("call", "@h"), S("add", "a0", "a0", "s2"),
         S("li", "a7", 10), S("ecall"),
